@@ -1,6 +1,7 @@
 package gram
 
 import (
+	"encoding/json"
 	"io"
 	"reflect"
 
@@ -20,6 +21,9 @@ type Built interface {
 	// SubString calls ParserForProduction for a non-root production (when the
 	// program registered one) and returns that parser's String().
 	SubString() (string, bool, error)
+	// Sub returns the parser ParserForProduction derives from this one for the
+	// registered non-root production, and that production's name.
+	Sub() (Built, string, bool, error)
 }
 
 // Handle is a registered grammar program: the IR it was emitted from and a
@@ -52,6 +56,79 @@ func (b built[G]) SubString() (string, bool, error) {
 	s, err := f(b.p)
 	return s, true, err
 }
+
+// subParsers holds, per grammar id, a func(*participle.Parser[G]) (Built, string, error).
+var subParsers = map[string]interface{}{}
+
+// RegSubParser registers how to derive the parser of production P from a parser of G.
+func RegSubParser[G any, P any](id, prod string) {
+	subProd[id] = prod
+	subParsers[id] = func(p *participle.Parser[G]) (Built, string, error) {
+		sp, err := participle.ParserForProduction[P, G](p)
+		if err != nil {
+			return nil, prod, err
+		}
+		return built[P]{sp, ""}, prod, nil
+	}
+}
+
+func (b built[G]) Sub() (Built, string, bool, error) {
+	f, ok := subParsers[b.id].(func(p *participle.Parser[G]) (Built, string, error))
+	if !ok {
+		return nil, "", false, nil
+	}
+	sb, prod, err := f(b.p)
+	return sb, prod, true, err
+}
+
+// WithSubHandles returns the registry followed, for every n-th grammar that
+// registered a non-root production, by a derived handle: the same types and
+// options, but the parser is the one ParserForProduction hands out for that
+// production and the IR has that production as its root. To a check it is one
+// more grammar; to the library it is the other way of getting a parser.
+func WithSubHandles(every int) []*Handle {
+	out := append([]*Handle{}, Registry...)
+	n := 0
+	for _, h := range Registry {
+		f := subParsers[h.ID]
+		if f == nil {
+			continue
+		}
+		n++
+		if n%every != 0 {
+			continue
+		}
+		g, err := ParseGrammar(h.IR)
+		if err != nil {
+			continue
+		}
+		h := h
+		prod := subProd[h.ID]
+		if prod == "" || g.Prod(prod) == nil {
+			continue
+		}
+		g.Root = prod
+		ir, err := json.Marshal(g)
+		if err != nil {
+			continue
+		}
+		out = append(out, &Handle{ID: h.ID + "s", IR: string(ir), Build: func(opts ...participle.Option) (Built, error) {
+			b, err := h.Build(opts...)
+			if err != nil {
+				return nil, err
+			}
+			sb, _, _, err := b.Sub()
+			if err != nil {
+				return nil, err
+			}
+			return sb, nil
+		}})
+	}
+	return out
+}
+
+// subProd remembers the production each RegSubParser call named.
+var subProd = map[string]string{}
 
 func (b built[G]) ParseString(f, s string, o ...participle.ParseOption) (interface{}, error) {
 	v, err := b.p.ParseString(f, s, o...)
